@@ -88,6 +88,7 @@ def generate(rng, prop, tier):
             seg['a'] = min(seg['a'], 2)
     sc['plan'] = plan
     sc['share_info'] = rng.random() < 0.4
+    sc['vld'] = rng.random() < 0.3        # validation data are monitored (no e_vld stop): they must not influence the result
     if kind == 'als' and rng.random() < 0.12:
         # start (or restart) from a tensor that reproduces the noise-free data exactly: with lamb > 0 it is NOT the minimiser
         sc['exact_start'] = True
@@ -306,7 +307,16 @@ class Obs:
     pass
 
 
+def vld_data(sc, d):
+    g = gen(sc['dseed'] + 21)
+    if sc['kind'] == 'als_func':
+        return {'X_vld': g.uniform(sc['ab'][0], sc['ab'][1], (7, d)), 'y_vld': g.standard_normal(7) + 1.0}
+    return {'I_vld': np.stack([g.integers(0, k, 7) for k in sc['n']], axis=1), 'y_vld': g.standard_normal(7) + 1.0}
+
+
 def run_job(sc, I, y, w, Y0, nswp, cb_at=None, jump=0.0, e=None, extra=None, keep=True, info=None):
+    if sc.get('vld') and sc.get('kind') in ('als', 'als_func') and not (extra and ('I_vld' in extra or 'X_vld' in extra or 'r' in extra)):
+        extra = dict(extra or {}, **vld_data(sc, len(sc['n'])))
     o = Obs()
     o.events = []
     CLOCK.reset()
@@ -783,7 +793,7 @@ def shrink(sc, v):
             s['single'] = None
         yield s
     for k in range(len(sc['n'])):
-        if sc['n'][k] > 1 and sc['kind'] != 'als_func':
+        if sc['n'][k] > 1 and sc['kind'] != 'als_func' and not str(sc.get('clause', '')).startswith('func'):
             s = cp(); s['n'][k] -= 1
             if s.get('single') and s['single']['mode'] == k and (s['single']['index'] >= s['n'][k] or s['n'][k] < 2):
                 s['single'] = None
